@@ -223,6 +223,7 @@ fn probe(
     must_be_new: bool,
     extra_commit: bool,
 ) -> Result<&'static str, (String, String)> {
+    crate::report::progress();
     // 1. independent parser on the raw bytes
     let rep = fileck::check(img, h.pagesize);
     if !rep.ok() {
